@@ -530,6 +530,19 @@ def run_nnx_pop(ctx):
     if name == 'none':
       return False
     return isinstance(v, atoms[name])
+  # a catch-all before another filter is rejected by every split API - pop included - and nothing is removed
+  for j, bad in enumerate([(..., nnx.Intermediate), (True, 't1'), (..., nnx.Param, Cache)]):
+    with ctx.case('nnx.pop', 800000 + j, dict(filters=repr(bad)), nontrivial=True):
+      m = build()
+      before = refs(m)
+      try:
+        nnx.pop(m, *bad)
+        raised = False
+      except ValueError:
+        raised = True
+      ctx.op('nnx.pop')
+      ctx.check(raised, 'nnx.ellipsis_not_last_accepted:pop', lambda: dict(filters=repr(bad), left=len(refs(m)), had=len(before)))
+      ctx.check(set(refs(m)) == set(before), 'nnx.pop:unselected_reference_lost_or_selected_left', lambda: dict(filters=repr(bad)))
   names = list(atoms)
   tuples = [(a,) for a in names] + [(a, b) for a in names for b in names if a != b]
   for i, ft in ctx.items(tuples, 'nnx.pop'):
